@@ -162,6 +162,8 @@ fn act(c: &mut Cursor, max_frags: u32) -> EpAct {
 
 /// Decodes a scenario. `low_bandwidth` selects the ceiling ranges C12 / C20 use.
 pub fn scenario_from_bytes(data: &[u8], low_bandwidth: bool, max_ticks: usize, max_frags: u32) -> PairScenario {
+    // (C12 / C20 need an identity in every packet: no talking peer with 1-byte packets there, as in their own strategies)
+    let allow_chatter = !low_bandwidth;
     let mut c = Cursor::new(data);
     let d0 = dir(&mut c, low_bandwidth);
     let d1 = dir(&mut c, low_bandwidth);
@@ -190,7 +192,7 @@ pub fn scenario_from_bytes(data: &[u8], low_bandwidth: bool, max_ticks: usize, m
     let period: u64 = [1_000, 5_000, 5_000, 10_000, 10_000, 16_000, 16_000, 30_000, 30_000, 60_000, 150_000, 500_000][(c.u8() % 12) as usize];
     let tail_step = [1_000u32, 10_000, 16_000, 30_000, 100_000][(c.u8() % 5) as usize];
     let cb = c.u8();
-    let chatter = if cb % 5 < 2 {
+    let chatter = if cb % 5 < 2 && allow_chatter {
         let e = (cb >> 4) & 1;
         let ch = c.u8() % 64;
         let mode = c.u8() % 4;
